@@ -326,6 +326,12 @@ fn asn_contract<const N: usize>() {
 }
 
 #[kani::proof]
+#[kani::unwind(7)]
+fn c15_asn_from_str_n5() {
+    asn_contract::<5>();
+}
+
+#[kani::proof]
 #[kani::unwind(8)]
 fn c15_asn_from_str_n6() {
     asn_contract::<6>();
@@ -352,6 +358,12 @@ fn isd_asn_contract<const N: usize>() {
     }
     kani::cover!(r.is_ok(), "ISD-AS accepted");
     kani::cover!(r.is_err() && count_byte(&buf[..len], b'-') == 1, "rejected with exactly one dash");
+}
+
+#[kani::proof]
+#[kani::unwind(7)]
+fn c15_isd_asn_from_str_n5() {
+    isd_asn_contract::<5>();
 }
 
 #[kani::proof]
